@@ -68,11 +68,14 @@ IDEQ_ALLOW = {"Tree._self_check": "debug helper, not API"}
 
 
 def _ideq_props(f: Func, op: str, operand: ast.AST, slot: bool) -> List[str]:
+    if f.top.cls is None and f.module == "node":
+        # the shared identity-lookup helper: every position / unlink operation depends on it
+        return ["C01", "C02", "C03", "C04", "C07", "C08", "C09", "C10", "C15"]
     cls = f.top.cls or ""
     typed = cls.startswith("Typed") or cls == "_SystemRootTypedNode"
     is_self = isinstance(operand, ast.Name) and operand.id == f.self_name
     if op == "remove":
-        return ["C02"] if slot else ["C01", "C08"]
+        return ["C02", "C09"] if slot else ["C01", "C03", "C08"]
     if op == "index" and is_self:
         return ["C15"] if typed else ["C10"]
     if op == "index":
@@ -82,7 +85,7 @@ def _ideq_props(f: Func, op: str, operand: ast.AST, slot: bool) -> List[str]:
     return ["C10"]
 
 
-@rule("ID-EQ", ["C01", "C02", "C04", "C08", "C10", "C15"], floor=6, section="3.2")
+@rule("ID-EQ", ["C01", "C02", "C03", "C04", "C07", "C08", "C09", "C10", "C15"], floor=6, section="3.2")
 def ideq(ctx: Ctx) -> List[Ob]:
     """identity discipline: no implicit-equality list operation (remove/index/count/in) on a node list with a node operand (Node.__eq__ compares data)"""
     obs: List[Ob] = []
@@ -172,14 +175,14 @@ def _pure_table(m: Model) -> Dict[str, Tuple[Tuple[str, ...], Tuple[str, ...]]]:
     add(["Node.add_child", "TypedNode.add_child", "Tree.add_child", "TypedTree.add_child",
          "Node.append_child", "Node.prepend_child", "Node.prepend_sibling", "Node.append_sibling",
          "TypedNode.append_child", "TypedNode.prepend_child", "TypedNode.prepend_sibling",
-         "TypedNode.append_sibling"], ("p:child",), ["C07"])
+         "TypedNode.append_sibling"], ("p:child",), ["C07", "C04", "C13"])
     add(["Node._add_from"], ("p:other",), ["C07", "C08"])
     add(["Node._add_filtered"], ("p:other",), ["C08", "C07"])
     add(["Node.filtered", "Tree.filtered", "TypedNode.filtered"], S, ["C08"])
     return t
 
 
-@rule("PURE", ["C02", "C05", "C06", "C07", "C08", "C09", "C10", "C11", "C12", "C13", "C14", "C15", "C16", "C17"],
+@rule("PURE", ["C02", "C04", "C05", "C06", "C07", "C08", "C09", "C10", "C11", "C12", "C13", "C14", "C15", "C16", "C17"],
       floor=120, section="3.4")
 def pure(ctx: Ctx) -> List[Ob]:
     """read-only footprint: the instantiated effect summary of each read-only entry point contains no structural write rooted at its read-only arguments (self / source / both diff inputs)"""
